@@ -317,20 +317,25 @@ impl IsoType {
     }
 }
 
+/// Prime-power decomposition by trial division up to 2^16.  A cofactor that survives (only
+/// possible for orders beyond 2^32, which Khovanov torsion never reaches) is kept as one opaque
+/// factor: Smith diagonals are canonical chains, so two isomorphic modules described by their
+/// Smith diagonals still get equal lists.
 pub fn prime_powers(n: &BigInt) -> Vec<(BigInt, u32)> {
     let mut n = n.abs();
     let mut out = vec![];
-    let mut p = BigInt::from(2);
-    while &p * &p <= n {
+    let mut p = 2u32;
+    while p < (1 << 16) && BigInt::from(p) * BigInt::from(p) <= n {
+        let bp = BigInt::from(p);
         let mut e = 0;
-        while (&n % &p).is_zero() {
-            n /= &p;
+        while (&n % &bp).is_zero() {
+            n /= &bp;
             e += 1;
         }
         if e > 0 {
-            out.push((p.clone(), e));
+            out.push((bp, e));
         }
-        p += 1;
+        p += if p == 2 { 1 } else { 2 };
     }
     if !n.is_one() {
         out.push((n, 1));
